@@ -47,6 +47,7 @@ def fingerprint(o: Dict[str, Any], inv: str) -> Dict[str, Any]:
         key["names"] = sorted({e["ncls"] for e in ents})
         key["contents"] = sorted({e["ccls"] for e in ents if e["kind"] == "file"})
         key["nesting"] = sorted({"/".join(e["dcls"]) for e in ents})
+    key["root"] = o.get("root", "plain")
     return key
 
 
@@ -59,7 +60,7 @@ def main() -> int:
     n_entries = 0
     if replay:
         rp = replay_doc
-        core.write_json(trees_p, [{"entries": rp["case"]["entries"]}])
+        core.write_json(trees_p, [{"entries": rp["case"]["entries"], "root": rp["case"].get("root", "plain")}])
     else:
         res = ck.tlc("SnippetsGen", "SnippetsGen%s.cfg" % ("" if ck.quick else "_thorough"), what="G: directory trees", env={"VERIF_OUT": str(trees_p)}, count=False, seed=ck.seed + 1, jvm=JVM, timeout=1200)
         for line in res.printed:
@@ -73,17 +74,17 @@ def main() -> int:
     if complaints:
         raise core.MachineryFailure("the spec's content table disagrees with CPython's UTF-8 decoder: %s" % complaints[:3])
 
-    counters = {"must": 0, "may": 0, "mapped": 0, "ignored": 0}
+    counters = {"must": 0, "may": 0, "mapped": 0, "ignored": 0, "oddroot": 0}
     chunk = 2500
     for off in range(0, len(obs), chunk):
-        part = [{"entries": o["entries"], "rd": {k: o["rd"][k] for k in ("outcome", "mapping", "errors")}, "main": {k: o["main"][k] for k in ("outcome", "rc", "stderr")}} for o in obs[off : off + chunk]]
+        part = [{"entries": o["entries"], "root": o.get("root", "plain"), "rd": {k: o["rd"][k] for k in ("outcome", "mapping", "errors")}, "main": {k: o["main"][k] for k in ("outcome", "rc", "stderr")}} for o in obs[off : off + chunk]]
         pp = ck.work / "obs_part.json"
         core.write_json(pp, part)
         res = ck.tlc("SnippetsTrace", what="V: observed loads against the expected mapping / errors", env={"VERIF_OBS": str(pp)}, cont=True, workers=1, jvm=JVM, timeout=1500)
         for line in res.printed:
-            m = re.search(r"counters\", (\d+), (\d+), (\d+), (\d+), (\d+)", line)
+            m = re.search(r"counters\", (\d+), (\d+), (\d+), (\d+), (\d+), (\d+)", line)
             if m:
-                for k, g in zip(["must", "may", "mapped", "ignored"], m.groups()[1:]):
+                for k, g in zip(["must", "may", "mapped", "ignored", "oddroot"], m.groups()[1:]):
                     counters[k] += int(g)
         per: Dict[int, List[str]] = {}
         for v in res.violations:
@@ -96,11 +97,11 @@ def main() -> int:
             if "Self_TreeConsistent" in per[idx]:
                 raise core.MachineryFailure("the generator produced an inconsistent tree: %s" % describe(o["entries"]))
             inv = next((p for p in PRIORITY if p in per[idx]), per[idx][0])
-            detail = "tree %s: read_from_directory -> %s%s; main.execute -> %s rc=%s %s" % (
-                describe(o["entries"]), o["rd"]["outcome"],
+            detail = "root %s, tree %s: read_from_directory -> %s%s; main.execute -> %s rc=%s %s" % (
+                o.get("root", "plain"), describe(o["entries"]), o["rd"]["outcome"],
                 (" " + json.dumps([s(m["key"]) for m in o["rd"]["mapping"]])) if o["rd"]["outcome"] == "mapping" else (" " + o["rd"]["exc"] if o["rd"]["exc"] else ""),
                 o["main"]["outcome"], o["main"]["rc"], o["main"]["exc"][:160])
-            ck.violation(fingerprint(o, inv), inv, {"entries": o["entries"]}, {"rd": {"outcome": o["rd"]["outcome"], "keys": [s(m["key"]) for m in o["rd"]["mapping"]], "errors": [s(x) for x in o["rd"]["errors"]], "exc": o["rd"]["exc"]}, "main": {"outcome": o["main"]["outcome"], "rc": o["main"]["rc"], "stderr": s(o["main"]["stderr"])[:600], "exc": o["main"]["exc"]}, "violated": per[idx]}, detail=detail)
+            ck.violation(fingerprint(o, inv), inv, {"entries": o["entries"], "root": o.get("root", "plain")}, {"rd": {"outcome": o["rd"]["outcome"], "keys": [s(m["key"]) for m in o["rd"]["mapping"]], "errors": [s(x) for x in o["rd"]["errors"]], "exc": o["rd"]["exc"]}, "main": {"outcome": o["main"]["outcome"], "rc": o["main"]["rc"], "stderr": s(o["main"]["stderr"])[:600], "exc": o["main"]["exc"]}, "violated": per[idx]}, detail=detail)
 
     ck.cov["evaluations"] = len(obs)
     ck.cov["traces_validated_against_impl"] = len(obs)
@@ -110,8 +111,8 @@ def main() -> int:
         "G: TLC enumerates the %d entries = (nesting 0..2 over directory names {valid, with dots, hidden, with dash}) x 9 file-name classes "
         "(valid, leading underscore, dots, starts with digit, space, dash, hidden, non-ASCII, trailing newline) x 8 content classes (plain, surrounding whitespace, empty, only whitespace, "
         "invalid UTF-8, BOM, CRLF, Unicode whitespace) + empty directories; every single-entry tree plus pseudo-random trees of 2..4 entries (TLC Randomization, seed %d); "
-        "non-trivial = the tree has a file that must make the run fail (%d) or loads to a mapping of more than the base key (%d); trees with an unsettled file below a hidden directory: %d; with an ignored entry: %d"
-        % (n_entries, ck.seed + 1, counters["must"], counters["mapped"], counters["may"], counters["ignored"])
+        "non-trivial = the tree has a file that must make the run fail (%d) or loads to a mapping of more than the base key (%d); trees with an unsettled file below a hidden directory: %d; with an ignored entry: %d; every tree is placed under a TLC-chosen kind of root (plain, hidden ancestor, hidden snippets directory, path spelled with ..): %d not plain"
+        % (n_entries, ck.seed + 1, counters["must"], counters["mapped"], counters["may"], counters["ignored"], counters["oddroot"])
     )
     pick = [obs[min(5, len(obs) - 1)], obs[len(obs) // 2], obs[-1]]
     ck.cov["samples"] = [{"tree": describe(o["entries"]), "read_from_directory": o["rd"]["outcome"], "keys": [s(m["key"]) for m in o["rd"]["mapping"]], "main_rc": o["main"]["rc"]} for o in pick]
